@@ -125,6 +125,12 @@ fn run_random<K: KeyT, V: ValT>(a: &Args) {
         };
         rebase_live();
         emit(&mut out, &json!({"op":"Reset","run":run,"hm":hm,"nkeys":nkeys}));
+        if !a.flag("par") && !a.flag("serde") {
+            // default-hasher constructors (no slot involved)
+            let cap = [0usize, 1, 3, 4, 7, 8, 14, 28, 29, 57, 100, 449][(run % 12) as usize];
+            let ev = w.exec(&json!({"op":"NewDflt","ty": if a.flag("set") { "set" } else { "map" },"cap":cap}));
+            emit(&mut out, &ev);
+        }
         for _ in 0..events {
             let op = g.next_op(&w);
             let ev = w.exec(&op);
@@ -848,6 +854,312 @@ fn run_script<K: KeyT, V: ValT>(a: &Args) {
     }
 }
 
+/// Phase x operation matrix: every operation of a fixed list is executed once in every structural phase
+/// of a fixed list (deterministically constructed through the hook), followed by the same observations.
+/// Random steering reaches these pairs with some probability; this mode reaches each of them in every run.
+/// One "run" = one (phase, operation) pair; `--first/--runs` select a range of pair indices.
+pub const MATRIX_PHASES: u64 = 11;
+fn zero_vals(v: &mut Value) {
+    match v {
+        Value::Object(m) => {
+            for (k, x) in m.iter_mut() {
+                if matches!(k.as_str(), "v" | "w" | "some" | "add") && x.is_number() {
+                    *x = json!(0);
+                } else {
+                    zero_vals(x);
+                }
+            }
+        }
+        Value::Array(a) => a.iter_mut().for_each(zero_vals),
+        _ => {}
+    }
+}
+fn run_matrix<K: KeyT, V: ValT>(a: &Args) {
+    let mut out = BufWriter::new(std::fs::File::create(a.get("out", "/dev/stdout")).unwrap());
+    let runs = a.num("runs", 20);
+    let first = a.num("first", 0);
+    let set = a.flag("set");
+    let ty = if set { "set" } else { "map" };
+    let zst = K::NAME == "zst";
+    emit(&mut out, &header::<K>(a, json!({"mode":"matrix"})));
+    let nops = if set { 44 } else { 66 };
+    for run in first..first + runs {
+        let phase = run % MATRIX_PHASES;
+        let opi = (run / MATRIX_PHASES) % nops;
+        let variant = run / (MATRIX_PHASES * nops); // beyond one full matrix: other hasher / sizes
+        let hm = (variant % 3) as u8;
+        let big = if variant % 2 == 0 { 28usize } else { 56 };
+        let mut w: World<K, V> = World::new(2, 400);
+        rebase_live();
+        emit(&mut out, &json!({"op":"Reset","run":run,"phase":phase,"opi":opi,"hm":hm}));
+        let mut ex = |w: &mut World<K, V>, mut op: Value| {
+            if zst {
+                zero_vals(&mut op); // zero-sized values carry no value
+            }
+            if let Some(o) = w.resolve(&op) {
+                let ev = w.exec(&o);
+                emit(&mut out, &ev);
+            }
+        };
+        let ins = |k: Value, v: u32| if set { json!({"op":"SInsert","s":1,"k":k}) } else { json!({"op":"Insert","s":1,"k":k,"v":v}) };
+        let rem = |k: Value| if set { json!({"op":"SRemove","s":1,"k":k}) } else { json!({"op":"Remove","s":1,"k":k}) };
+        // ---- build the phase ----
+        ex(&mut w, json!({"op":"New","s":1,"ty":ty,"cap":0,"hm":hm,"hs":0}));
+        let mut nk = 1u32;
+        macro_rules! fill_full {
+            ($min:expr) => {
+                for _ in 0..300 {
+                    let st = w.vstate(1).unwrap();
+                    if !st.split && st.main_cap == st.main_len && st.main_len >= $min {
+                        break;
+                    }
+                    ex(&mut w, ins(json!(nk), nk % 10));
+                    nk += 1;
+                }
+            };
+        }
+        if zst {
+            // one element at most: the phases collapse to empty / one in main / one in old / old emptied
+            match phase % 4 {
+                0 => {}
+                1 => ex(&mut w, ins(json!(0), 0)),
+                2 => {
+                    ex(&mut w, ins(json!(0), 0));
+                    ex(&mut w, json!({"op":"Reserve","s":1,"n":{"rel":"cap","d":1}}));
+                }
+                _ => {
+                    ex(&mut w, ins(json!(0), 0));
+                    ex(&mut w, json!({"op":"Reserve","s":1,"n":{"rel":"cap","d":1}}));
+                    ex(&mut w, json!({"op":"Retain","s":1,"pred":{"none":1}}));
+                }
+            }
+        } else {
+            match phase {
+                0 => {}                                  // never allocated
+                1 => {
+                    for _ in 0..5 {
+                        ex(&mut w, ins(json!(nk), 1));
+                        nk += 1;
+                    }
+                }
+                2 => fill_full!(14),                      // one table, growth_left = 0
+                3 => {
+                    // resize just started by reserve: everything in the old table, main table empty
+                    fill_full!(14);
+                    ex(&mut w, json!({"op":"Reserve","s":1,"n":{"rel":"cap","d":1}}));
+                }
+                4 | 5 | 6 | 7 | 9 | 10 => {
+                    fill_full!(big);
+                    ex(&mut w, ins(json!(nk), 2));        // growth: R elements moved, the rest parked
+                    nk += 1;
+                    if phase == 5 || phase == 9 {
+                        ex(&mut w, ins(json!(nk), 2));    // partly moved
+                        nk += 1;
+                    }
+                    if phase == 6 {
+                        // a single element left in the old table
+                        for _ in 0..200 {
+                            let st = w.vstate(1).unwrap();
+                            if !st.split || st.old_len <= 1 {
+                                break;
+                            }
+                            ex(&mut w, rem(json!({"cls":"old","i":1})));
+                        }
+                    }
+                    if phase == 7 {
+                        // old table emptied by retain: it stays attached; main table non-empty
+                        ex(&mut w, json!({"op":"Retain","s":1,"pred":{"table":"main"}}));
+                    }
+                    if phase == 9 {
+                        // main table emptied by removals while the old table still holds elements
+                        for _ in 0..200 {
+                            let st = w.vstate(1).unwrap();
+                            if st.main_len == 0 {
+                                break;
+                            }
+                            ex(&mut w, rem(json!({"cls":"main","i":0})));
+                        }
+                    }
+                    if phase == 10 && !set {
+                        // old table emptied through the entry API (replace_entry_with(None) on every element)
+                        for _ in 0..200 {
+                            let st = w.vstate(1).unwrap();
+                            if !st.split || st.old_len == 0 {
+                                break;
+                            }
+                            ex(&mut w, json!({"op":"Entry","s":1,"k":{"cls":"old","i":0},"chain":[{"m":"match"},{"m":"o_replace_entry_with"}]}));
+                        }
+                    } else if phase == 10 {
+                        ex(&mut w, json!({"op":"Retain","s":1,"pred":{"table":"main"}}));
+                    }
+                }
+                _ => {
+                    // 8: old table attached, and both tables empty
+                    fill_full!(14);
+                    ex(&mut w, json!({"op":"Reserve","s":1,"n":{"rel":"cap","d":1}}));
+                    ex(&mut w, json!({"op":"Retain","s":1,"pred":{"none":1}}));
+                }
+            }
+        }
+        // a second collection for the two-slot operations: other hasher state, a few shared keys
+        let two_slot = if set { opi >= 30 } else { (50..56).contains(&opi) };
+        if two_slot {
+            let cap2 = [0usize, 3, 29][(run % 3) as usize];
+            ex(&mut w, json!({"op":"New","s":2,"ty":ty,"cap": cap2,"hm":hm,"hs":1}));
+            for k in [1u32, 2, 3, 900, 901] {
+                let k = if zst { 0 } else { k };
+                ex(&mut w, if set { json!({"op":"SInsert","s":2,"k":k}) } else { json!({"op":"Insert","s":2,"k":k,"v":1}) });
+            }
+        }
+        // ---- the operation ----
+        let old0 = json!({"cls":"old","i":0});
+        let old1 = json!({"cls":"old","i": run % 7});
+        let main0 = json!({"cls":"main","i": run % 5});
+        let absent = json!({"cls":"absent","i": run % 9});
+        let ops: Vec<Value> = if set {
+            match opi {
+                0 => vec![json!({"op":"SInsert","s":1,"k":absent})],
+                1 => vec![json!({"op":"SInsert","s":1,"k":old1})],
+                2 => vec![json!({"op":"SInsert","s":1,"k":main0})],
+                3 => vec![json!({"op":"SReplace","s":1,"k":old0})],
+                4 => vec![json!({"op":"SReplace","s":1,"k":absent})],
+                5 => vec![json!({"op":"SGetOrInsert","s":1,"k":old1})],
+                6 => vec![json!({"op":"SGetOrInsertOwned","s":1,"k":absent})],
+                7 => vec![json!({"op":"SGetOrInsertWith","s":1,"k":absent})],
+                8 => vec![json!({"op":"STake","s":1,"k":old0})],
+                9 => vec![json!({"op":"STake","s":1,"k":main0})],
+                10 => vec![json!({"op":"SRemove","s":1,"k":old1})],
+                11 => vec![json!({"op":"SRemove","s":1,"k":absent})],
+                12 => vec![json!({"op":"SContains","s":1,"k":old1}), json!({"op":"SContains","s":1,"k":main0}), json!({"op":"SGet","s":1,"k":absent})],
+                13 => vec![json!({"op":"Retain","s":1,"pred":{"all":1}})],
+                14 => vec![json!({"op":"Retain","s":1,"pred":{"none":1}})],
+                15 => vec![json!({"op":"Retain","s":1,"pred":{"table":"main"}})],
+                16 => vec![json!({"op":"Retain","s":1,"pred":{"table":"old"}})],
+                17 => vec![json!({"op":"DrainFilter","s":1,"pred":{"table":"old"},"end":"exhaust"})],
+                18 => vec![json!({"op":"DrainFilter","s":1,"pred":{"table":"main"},"end":"drop","take":1})],
+                19 => vec![json!({"op":"DrainFilter","s":1,"pred":{"all":1},"end":"forget","take":1})],
+                20 => vec![json!({"op":"DrainFilter","s":1,"pred":{"all":1},"end":"drop","take":0})],
+                21 => vec![json!({"op":"Drain","s":1,"end":"exhaust","extra":2})],
+                22 => vec![json!({"op":"Drain","s":1,"end":"drop","take":1,"extra":2})],
+                23 => vec![json!({"op":"Drain","s":1,"end":"forget","take":2,"extra":1})],
+                24 => vec![json!({"op":"IntoIter","s":1,"extra":2})],
+                25 => vec![json!({"op":"IntoIter","s":1,"extra":2,"take":1})],
+                26 => vec![json!({"op":"Iter","s":1,"kind":"iter","extra":2})],
+                27 => vec![json!({"op":"Clear","s":1})],
+                28 => vec![json!({"op":"Reserve","s":1,"n":{"rel":"free","d":1}})],
+                29 => vec![json!({"op":"ShrinkToFit","s":1})],
+                30 => vec![json!({"op":"Clone","s":1,"d":2}), json!({"op":"Eq","s":1,"d":2}), json!({"op":"Eq","s":2,"d":1})],
+                31 => vec![json!({"op":"CloneFrom","s":1,"d":2}), json!({"op":"Eq","s":2,"d":1})],
+                32 => vec![json!({"op":"CloneFrom","s":2,"d":1}), json!({"op":"Eq","s":1,"d":2})],
+                33 => vec![json!({"op":"Eq","s":1,"d":2}), json!({"op":"Eq","s":1,"d":1})],
+                _ => {
+                    let kinds = ["union", "intersection", "difference", "symmetric_difference", "bitor", "bitand", "bitxor", "sub", "is_subset", "is_superset"];
+                    let k = kinds[((opi - 34) % 10) as usize];
+                    vec![json!({"op":"SAlg","s":1,"d":2,"hm":hm,"kind":k}), json!({"op":"SAlg","s":2,"d":1,"hm":hm,"kind":k})]
+                }
+            }
+        } else {
+            match opi {
+                0 => vec![json!({"op":"Insert","s":1,"k":absent,"v":7})],
+                1 => vec![json!({"op":"Insert","s":1,"k":old1,"v":7})],
+                2 => vec![json!({"op":"Insert","s":1,"k":main0,"v":7})],
+                3 => vec![json!({"op":"Insert","s":1,"k":old0,"v":8})],
+                4 => vec![json!({"op":"Get","s":1,"k":old1,"kind":"get"}), json!({"op":"Get","s":1,"k":main0,"kind":"get_key_value"}), json!({"op":"Get","s":1,"k":absent,"kind":"contains_key"})],
+                5 => vec![json!({"op":"Get","s":1,"k":old0,"kind":"get_mut","w": if zst { 0 } else { 55 }}), json!({"op":"Get","s":1,"k":old0,"kind":"index"})],
+                6 => vec![json!({"op":"Get","s":1,"k":old1,"kind":"raw_key"}), json!({"op":"Get","s":1,"k":main0,"kind":"get_mut","w": if zst { 0 } else { 56 }})],
+                7 => vec![json!({"op":"Remove","s":1,"k":old0})],
+                8 => vec![json!({"op":"Remove","s":1,"k":old1})],
+                9 => vec![json!({"op":"Remove","s":1,"k":main0})],
+                10 => vec![json!({"op":"RemoveEntry","s":1,"k":old1})],
+                11 => vec![json!({"op":"Remove","s":1,"k":absent})],
+                12 => vec![json!({"op":"Entry","s":1,"k":old0,"chain":[{"m":"match"},{"m":"o_remove"}]})],
+                13 => vec![json!({"op":"Entry","s":1,"k":old1,"chain":[{"m":"match"},{"m":"o_remove_entry"}]})],
+                14 => vec![json!({"op":"Entry","s":1,"k":old0,"chain":[{"m":"match"},{"m":"o_replace_entry_with"},{"m":"match"},{"m":"v_insert","v":4},{"m":"write","w":5}]})],
+                15 => vec![json!({"op":"Entry","s":1,"k":old1,"chain":[{"m":"match"},{"m":"o_replace_entry_with","some":6},{"m":"match"},{"m":"o_get"}]})],
+                16 => vec![json!({"op":"Entry","s":1,"k":old0,"chain":[{"m":"and_modify","add":2},{"m":"or_insert","v":1},{"m":"write","w":9}]})],
+                17 => vec![json!({"op":"Entry","s":1,"k":absent,"chain":[{"m":"or_insert_with","v":3},{"m":"write","w":4}]})],
+                18 => vec![json!({"op":"Entry","s":1,"k":old1,"chain":[{"m":"match"},{"m":"o_insert","v":3},{"m":"o_get"},{"m":"o_get_mut","w":4},{"m":"o_into_mut"},{"m":"write","w":6}]})],
+                19 => vec![json!({"op":"Entry","s":1,"k":absent,"chain":[{"m":"insert","v":3},{"m":"o_get"},{"m":"o_insert","v":4},{"m":"o_key"}]})],
+                20 => vec![json!({"op":"Entry","s":1,"k":old0,"chain":[{"m":"insert","v":3},{"m":"o_get"},{"m":"o_remove"}]})],
+                21 => vec![json!({"op":"Entry","s":1,"k":absent,"chain":[{"m":"or_default"},{"m":"write","w":2}]})],
+                22 => vec![json!({"op":"Entry","s":1,"k":old1,"chain":[{"m":"and_replace_entry_with"},{"m":"or_insert_with_key","v":3},{"m":"read"}]})],
+                23 => vec![json!({"op":"Entry","s":1,"k":main0,"chain":[{"m":"match"},{"m":"o_replace_entry","v":3}]})],
+                24 => vec![json!({"op":"RawEntry","s":1,"k":old0,"via":"hash","chain":[{"m":"match"},{"m":"o_replace_entry_with","some":3},{"m":"match"},{"m":"o_remove"}]})],
+                25 => vec![json!({"op":"RawEntry","s":1,"k":old1,"via":"key","chain":[{"m":"match"},{"m":"o_replace_entry_with"},{"m":"match"},{"m":"v_insert","v":3},{"m":"read"}]})],
+                26 => vec![json!({"op":"RawEntry","s":1,"k":absent,"via":"key","chain":[{"m":"or_insert_with","v":1},{"m":"read"}]})],
+                27 => vec![json!({"op":"RawEntry","s":1,"k":absent,"via":"hash","chain":[{"m":"match"},{"m":"v_insert_hashed","v":1},{"m":"read"}]})],
+                28 => vec![json!({"op":"RawEntry","s":1,"k":old0,"via":"key","chain":[{"m":"insert","v":2},{"m":"o_get"},{"m":"o_insert","v":5},{"m":"o_into_mut"}]})],
+                29 => vec![json!({"op":"RawEntry","s":1,"k":old1,"via":"key","chain":[{"m":"and_modify","add":1},{"m":"or_insert","v":1}]})],
+                30 => vec![json!({"op":"Retain","s":1,"pred":{"all":1}})],
+                31 => vec![json!({"op":"Retain","s":1,"pred":{"none":1}})],
+                32 => vec![json!({"op":"Retain","s":1,"pred":{"table":"main"}})],
+                33 => vec![json!({"op":"Retain","s":1,"pred":{"table":"old"}})],
+                34 => vec![json!({"op":"Retain","s":1,"pred":{"all_but":{"cls":"old","i":0}},"add":1})],
+                35 => vec![json!({"op":"DrainFilter","s":1,"pred":{"table":"old"},"end":"exhaust"})],
+                36 => vec![json!({"op":"DrainFilter","s":1,"pred":{"table":"main"},"end":"drop","take":1})],
+                37 => vec![json!({"op":"DrainFilter","s":1,"pred":{"all":1},"end":"forget","take":1})],
+                38 => vec![json!({"op":"DrainFilter","s":1,"pred":{"all":1},"end":"drop","take":0})],
+                39 => vec![json!({"op":"DrainFilter","s":1,"pred":{"none":1},"end":"exhaust"})],
+                40 => vec![json!({"op":"Drain","s":1,"end":"exhaust","extra":2})],
+                41 => vec![json!({"op":"Drain","s":1,"end":"drop","take":1,"extra":2})],
+                42 => vec![json!({"op":"Drain","s":1,"end":"forget","take":2,"extra":1})],
+                43 => vec![json!({"op":"Drain","s":1,"end":"drop","take":0,"extra":1})],
+                44 => vec![json!({"op":"IntoIter","s":1,"extra":2})],
+                45 => vec![json!({"op":"IntoIter","s":1,"extra":2,"take":1})],
+                46 => vec![json!({"op":"Iter","s":1,"kind":"iter","extra":2}), json!({"op":"Iter","s":1,"kind":"keys","extra":1}), json!({"op":"Iter","s":1,"kind":"values","extra":1})],
+                47 => vec![json!({"op":"Iter","s":1,"kind":"iter_mut","extra":1,"add":1}), json!({"op":"Iter","s":1,"kind":"values_mut","extra":1,"add":2})],
+                48 => vec![json!({"op":"Iter","s":1,"kind":"ref_into_iter","extra":1}), json!({"op":"Iter","s":1,"kind":"mut_into_iter","extra":1,"add":1}), json!({"op":"Iter","s":1,"kind":"zip"})],
+                49 => vec![json!({"op":"Clear","s":1})],
+                50 => vec![json!({"op":"Clone","s":1,"d":2}), json!({"op":"Eq","s":1,"d":2}), json!({"op":"Eq","s":2,"d":1})],
+                51 => vec![json!({"op":"CloneFrom","s":1,"d":2}), json!({"op":"Eq","s":2,"d":1})],
+                52 => vec![json!({"op":"CloneFrom","s":2,"d":1}), json!({"op":"Eq","s":1,"d":2})],
+                53 => vec![json!({"op":"Eq","s":1,"d":2}), json!({"op":"Eq","s":1,"d":1})],
+                54 => vec![json!({"op":"Clone","s":1,"d":2}), json!({"op":"Insert","s":2,"k":old0,"v":9}), json!({"op":"Remove","s":1,"k":old1}), json!({"op":"Eq","s":1,"d":2})],
+                55 => vec![json!({"op":"CloneFrom","s":1,"d":2}), json!({"op":"Get","s":2,"k":{"cls":"old","i":0},"kind":"get"}), json!({"op":"Debug","s":2})],
+                56 => vec![json!({"op":"Debug","s":1})],
+                57 => vec![json!({"op":"Reserve","s":1,"n":0})],
+                58 => vec![json!({"op":"Reserve","s":1,"n":{"rel":"free","d":0}})],
+                59 => vec![json!({"op":"Reserve","s":1,"n":{"rel":"free","d":1}})],
+                60 => vec![json!({"op":"TryReserve","s":1,"n":{"rel":"cap","d":1}})],
+                61 => vec![json!({"op":"ShrinkToFit","s":1})],
+                62 => vec![json!({"op":"ShrinkTo","s":1,"n":{"rel":"len","d":0}})],
+                63 => vec![json!({"op":"ShrinkTo","s":1,"n":0})],
+                64 => vec![json!({"op":"Extend","s":1,"items":[[7001, 1], [7002, 2], [7003, 3]],"hint":3})],
+                _ => vec![json!({"op":"Probe","s":1})],
+            }
+        };
+        for o in ops {
+            ex(&mut w, o);
+        }
+        // ---- the same observations after every pair ----
+        for s in 1..=2usize {
+            if !w.alive(s) {
+                continue;
+            }
+            ex(&mut w, json!({"op":"Iter","s":s,"kind":"iter","extra":1}));
+            if set {
+                ex(&mut w, json!({"op":"SContains","s":s,"k":{"cls":"old","i":0}}));
+                ex(&mut w, json!({"op":"SContains","s":s,"k":{"cls":"main","i":0}}));
+            } else {
+                ex(&mut w, json!({"op":"Get","s":s,"k":{"cls":"old","i":0},"kind":"get"}));
+                ex(&mut w, json!({"op":"Get","s":s,"k":{"cls":"main","i":0},"kind":"get"}));
+            }
+        }
+        if w.alive(1) && !zst {
+            ex(&mut w, json!({"op":"Probe","s":1}));
+            ex(&mut w, ins(json!({"cls":"absent","i":3}), 1));
+            ex(&mut w, json!({"op":"Iter","s":1,"kind":"iter","extra":1}));
+        }
+        for s in 1..w.slots.len() {
+            if w.alive(s) {
+                ex(&mut w, json!({"op":"DropMap","s":s}));
+            }
+        }
+        let live = live_ids();
+        emit(&mut out, &json!({"op":"EndRun","live_ids": live, "live_allocs": live_tables()}));
+    }
+}
+
 fn main() {
     install_panic_hook();
     let (mode, a) = Args::parse();
@@ -856,6 +1168,7 @@ fn main() {
         ($f:ident) => {
             match elem.as_str() {
                 "plain" => $f::<PK, PV>(&a),
+                "fat" => $f::<FK, FV>(&a),
                 "heap" => $f::<HK, HV>(&a),
                 "zst" => $f::<ZK, ZV>(&a),
                 _ => panic!("bad --elem"),
@@ -868,6 +1181,7 @@ fn main() {
         "faults" => dispatch!(run_faults),
         "meta" => dispatch!(run_meta),
         "tomb" => dispatch!(run_tomb),
+        "matrix" => dispatch!(run_matrix),
         "big" => dispatch!(run_big),
         _ => {
             eprintln!("usage: drive random|run ...");
